@@ -101,8 +101,15 @@ def evalFitSpline (j obs : Json) : E (List (String × Bool × String)) := do
       -- where the curve leaves: beyond the horizontal edge that carries an end point of the path, or elsewhere
       let top := (rects.head?.map (·.top)).getD 0
       let bot := (rects.getLast?.map (·.bot)).getD 0
+      -- … by a piece that itself ends at that end point (the known bulge), or by another piece
+      let pathEnds := [path.head!, path.getLast!]
+      let touches := fun (c : Piece) (y : Rat) => pathEnds.any fun e => e.2 == y && (c.p0 == e || c.p3 == e)
       let beyondEnds := outPts.all fun p => p.2 < top || p.2 > bot
-      let kind := if beyondEnds then "beyond the outer horizontal edge that carries the path's end point"
+      let byEndPiece := pieces.all fun c =>
+        ((List.range 257).map fun (k : Nat) => c.at ((k : Rat) / 256)).all fun p =>
+          grown.any (ptIn · p) || (p.2 < top && touches c top) || (p.2 > bot && touches c bot)
+      let kind := if beyondEnds && byEndPiece then "beyond the outer horizontal edge that carries the path's end point"
+        else if beyondEnds then "beyond an outer horizontal edge, by a piece that does not end on it"
         else if crossingsNearCorners rects pieces then "slipping through the fitter's vertex tolerance (every crossing of the corridor boundary lies within 0.04 of a rectangle corner)"
         else "through a side or an inner corner"
       let mut out := [("C20", ends && joins && !outside,
